@@ -24,6 +24,7 @@ from geneticengine.evaluation.sequential import SequentialEvaluator
 from geneticengine.evaluation.tracker import MultiObjectiveProgressTracker, SingleObjectiveProgressTracker
 from geneticengine.problems import MultiObjectiveProblem, SingleObjectiveProblem
 from geneticengine.problems.helpers import sort_population
+from geneticengine.random.sources import NativeRandomSource
 from geneticengine.solutions.individual import Individual
 
 RULE = ("elitism: EVERY fitness vector over {0,1,2}^n for n<=4 (thorough n<=5) x every elite count k=0..n+1 x {list, Population, "
@@ -513,7 +514,58 @@ def check_elitism_beside_other_branches(h: Harness):
                    {"triples": triples, "first": first})
 
 
+def check_unevaluated_lookalikes_and_numeric_types(h: Harness):
+    """ElitismStep handed individuals nobody has evaluated yet, whose genotypes all PRINT alike (a `__str__` that abbreviates), under fitness
+    functions that return their score as a Python float, a numpy float32, a numpy int64 or a numpy UNSIGNED integer (a count of errors, 0 =
+    perfect): the k individuals kept are the k best by the value the fitness function returns for each, in the declared direction"""
+    import numpy as np
+    from geneticengine.representations.api import Representation
+
+    class Opaque:
+        def __init__(self, uid_, v):
+            self.uid, self.v = uid_, v
+
+        def __str__(self):
+            return "<genotype>"
+
+        __repr__ = __str__
+
+    class OpaqueRep(Representation):
+        def create_genotype(self, random, **kwargs):
+            raise NotImplementedError
+
+        def genotype_to_phenotype(self, genotype):
+            return genotype
+    rng = h.rng
+    rep = OpaqueRep()
+    casts = [("float", float), ("np.float32", np.float32), ("np.int64", np.int64), ("np.uint32", np.uint32), ("np.uint8", np.uint8)]
+    for trial in range(h.n(60, 500)):
+        n = rng.randint(2, 9)
+        k = rng.randint(1, n)
+        minimize = rng.random() < 0.5
+        cname, cast = casts[trial % len(casts)]
+        vals = [rng.randint(0, 6) for _ in range(n)]
+        if trial % 3 == 0:
+            vals[rng.randrange(n)] = 0          # a perfect individual
+        problem = SingleObjectiveProblem(lambda p, cast=cast: cast(p.v), minimize=minimize)
+        inds = [Individual(Opaque(i, v), rep) for i, v in enumerate(vals)]
+        try:
+            out = list(ElitismStep().apply(problem, SequentialEvaluator(), rep, NativeRandomSource(rng.randrange(10**6)), list(inds), k, 0))
+        except Exception as e:  # noqa: BLE001
+            h.fail("ElitismStep.apply", "raises", f"unevaluated look-alike individuals, scores as {cname}: {type(e).__name__}: {e}", {"vals": vals, "cast": cname})
+            continue
+        h.count(f"lookalikes:{cname}")
+        h.seen(f"lookalikes:{cname}:{minimize}:{vals}:{k}", nontrivial=len(set(vals)) > 1)
+        kept = sorted(o.genotype.v for o in out)
+        best = sorted(vals, reverse=not minimize)[:k]
+        if len(out) != k or sorted(best) != kept:
+            h.fail("ElitismStep.apply", "not-top-k",
+                   f"ElitismStep over {n} unevaluated individuals whose genotypes all print as '<genotype>', fitness function returns {cname} scores {vals}, "
+                   f"{'min' if minimize else 'max'}imise, k={k}: kept the scores {kept}, the {k} best are {sorted(best)}", {"vals": vals, "cast": cname, "k": k, "minimize": minimize})
+
+
 def run(h: Harness):
+    check_unevaluated_lookalikes_and_numeric_types(h)
     check_parallel_evaluator(h)
     check_simplegp_elitism(h)
     check_near_equal_fitness(h)
